@@ -477,6 +477,9 @@ impl Worker {
                 break;
             }
 
+            #[cfg(cadence_verif)]
+            crate::verif::point("queuing.worker.before_recv");
+
             if let Ok(Some(v)) = self.receiver.recv() {
                 self.stats.incr_drained();
                 (self.task)(v);
